@@ -26,7 +26,7 @@ def c14(tier):
     t0 = time.time()
     pid = "C14"
     verdict = common.Verdict(pid)
-    progs, total = checks_refine.sample_programs(tier, fams=["F5a", "F5b", "F5c", "F6"], name="c14", scale=1.5)
+    progs, total = checks_refine.sample_programs(tier, fams=["F5a", "F5b", "F5c", "F5d", "F6"], name="c14", scale=1.5)
     cases, bodies = [], {}
     for i, p in enumerate(progs):
         used = vocab.closure(sorted(render.calls_in(p["body"])))
